@@ -7,6 +7,7 @@ interpolation weights).  Assumed contracts of linear_operator primitives appear 
 (`R Rᵀ = Kzz⁻¹`, `C Cᵀ = M⁻¹`, `L Lᵀ = …`, `S Sᵀ = A⁻¹`) and are monitored by the correspondence.
 -/
 import GPVerif.Bridge.Structured
+import GPVerif.Bridge.GridKron
 import GPVerif.Bridge.Interp
 import GPVerif.Gen.StructuredAlgebra
 import Mathlib.Data.Rat.Floor
@@ -286,6 +287,28 @@ theorem sgpr_objective_eq_titsias (kdiag qdiag : Fin n → α) (σ2 : α) (logN 
   simp only [titsiasAddedLoss, div_eq_mul_inv, ← Finset.sum_mul]
   ring
 
+/-- the SGPR training objective with the kernel reading the noise of ANOTHER likelihood object (`σ²_K`) than the one the
+marginal-likelihood term was computed with (`σ²`): it is the Titsias bound iff the two noises agree (whenever
+`tr(K − Q) ≠ 0`) — the reason why a copied model must keep `covar_module.likelihood is model.likelihood`. -/
+theorem sgpr_objective_needs_shared_noise (kdiag qdiag : Fin n → α) (σ2 σ2K logN : α) (h2 : (2 : α) ≠ 0) (h0 : σ2 ≠ 0)
+    (hK : σ2K ≠ 0) (htr : (∑ i, (kdiag i - qdiag i)) ≠ 0) :
+    sgprObjective logN kdiag qdiag (fun _ => σ2K) = logN - (∑ i, (kdiag i - qdiag i)) / (2 * σ2) ↔ σ2K = σ2 := by
+  rw [sgprObjective, sgpr_objective_eq_titsias]
+  constructor
+  · intro h
+    have h' : (∑ i, (kdiag i - qdiag i)) / (2 * σ2K) = (∑ i, (kdiag i - qdiag i)) / (2 * σ2) := sub_right_inj.mp h
+    rw [div_eq_div_iff (mul_ne_zero h2 hK) (mul_ne_zero h2 h0)] at h'
+    exact (mul_left_cancel₀ h2 (mul_left_cancel₀ htr h')).symm
+  · rintro rfl; rfl
+
+/-- `copy.deepcopy(x, memo)` of a reference to an object that the traversal has already copied returns THAT copy (the
+sharing structure is preserved); `copy.deepcopy(x)` with a private memo returns a different, new object. -/
+theorem deepcopy_memo_preserves_sharing (st : CopySt) (id j : ℕ) (hmem : st.memo.lookup id = some j) (hj : j < st.next) :
+    (copyRef .memo st id).1 = j ∧ (copyRef .fresh st id).1 ≠ j := by
+  constructor
+  · simp [copyRef, hmem]
+  · simp only [copyRef]; omega
+
 end sgpr
 
 /-! ## random Fourier features -/
@@ -453,6 +476,49 @@ theorem wiski_covar_eq_dense (Kuu : DMat g g α) (hK : Kuu.toMatrixᵀ = Kuu.toM
     hroot, hin, core]
   simp only [interpKernel, DMat.toMatrix_mul, DMat.toMatrix_transpose, Matrix.transpose_mul,
     Matrix.transpose_transpose, hK, Matrix.mul_assoc, K, V]
+
+/-! ### WISKI fantasy histories: repeated `get_fantasy_model` calls on ONE base object -/
+
+/-- one out-of-place transition: the object it is called on is returned unchanged and the new strategy receives the
+caches recomputed from base data ++ fantasy data. -/
+theorem wiski_step_frame_and_recompute (W : DMat n g α) (dinv : Fin n → α) (r : DMat n 1 α) (q : FantasyReq g α) :
+    wiskiFantasyStep (wiskiBase W dinv r) q = (wiskiBase W dinv r, wiskiRecompute W dinv r q) := by
+  obtain ⟨h1, h2⟩ := wiski_update_eq_recompute W q.Wf dinv q.dinvf r q.rf
+  simp only [wiskiFantasyStep, wiskiBase, wiskiRecompute, Prod.mk.injEq, true_and, WiskiState.mk.injEq]
+  exact ⟨DMat.toMatrix_injective h1.symm, DMat.toMatrix_injective h2.symm⟩
+
+/-- **every history**: after ANY list of fantasy requests issued against the same base object the base object still holds
+the caches of the base data, and the k-th new strategy holds exactly the caches of base data ++ the k-th fantasy data —
+independent of how many fantasy models were derived before it (no earlier fantasy target is counted twice). -/
+theorem wiski_history_eq_recompute (W : DMat n g α) (dinv : Fin n → α) (r : DMat n 1 α) :
+    ∀ qs : List (FantasyReq g α),
+      wiskiFantasyHistory wiskiFantasyStep (wiskiBase W dinv r) qs
+        = (wiskiBase W dinv r, qs.map (wiskiRecompute W dinv r))
+  | [] => rfl
+  | q :: qs => by
+      simp only [wiskiFantasyHistory, wiski_step_frame_and_recompute, wiski_history_eq_recompute W dinv r qs, List.map_cons]
+
+/-- chained fantasies (a fantasy model of a fantasy model): updating the updated caches = recomputation on
+(base ++ first fantasy) ++ second fantasy data. -/
+theorem wiski_chain_eq_recompute (W : DMat n g α) (dinv : Fin n → α) (r : DMat n 1 α) (q1 q2 : FantasyReq g α) :
+    (wiskiFantasyStep (wiskiFantasyStep (wiskiBase W dinv r) q1).2 q2).2
+      = wiskiRecompute (vstack W q1.Wf) (Fin.addCases dinv q1.dinvf) (vstack r q1.rf) q2 := by
+  have e : (wiskiFantasyStep (wiskiBase W dinv r) q1).2
+      = wiskiBase (vstack W q1.Wf) (Fin.addCases dinv q1.dinvf) (vstack r q1.rf) := by
+    rw [wiski_step_frame_and_recompute]; rfl
+  rw [e, wiski_step_frame_and_recompute]
+
+/-- a transition that adds the fantasy response IN PLACE onto the cache of the object it is called on is NOT the
+out-of-place update: the second strategy derived from the same base then carries the first fantasy response as well. -/
+theorem wiski_inplace_step_double_counts (base : WiskiState g α) (q1 q2 : FantasyReq g α) :
+    let step : WiskiState g α → FantasyReq g α → WiskiState g α × WiskiState g α := fun self q =>
+      let u := wiskiUpdate self.innerProd self.response q.Wf q.dinvf q.rf
+      (⟨self.innerProd, u.2⟩, ⟨u.1, u.2⟩)
+    ((wiskiFantasyHistory step base [q1, q2]).2.map (·.response.toMatrix))
+      = [base.response.toMatrix + (wiskiResponse q1.Wf q1.dinvf q1.rf).toMatrix,
+         base.response.toMatrix + (wiskiResponse q1.Wf q1.dinvf q1.rf).toMatrix
+           + (wiskiResponse q2.Wf q2.dinvf q2.rf).toMatrix] := by
+  simp only [wiskiFantasyHistory, wiskiUpdate, List.map_cons, List.map_nil, DMat.toMatrix_add]
 
 end interp
 
@@ -755,6 +821,131 @@ theorem gen_kron_order_grid_matches_interp_index [CommMonoid α] [Zero α] (Ks :
     ← rowMajorFlat_eq_index_coeff_sum _ _ (by simpa using hj.length_eq)]
   exact grid_kron_row_major_order Ks is js hi hj
 
+
+/-- **Task B** — the non-interpolation order for every number of dimensions and all sizes: the generated
+`GridKernel.forward` outside interpolation mode (`KroneckerProductLinearOperator(*covars[::-1])`, a standard Kronecker
+product over the REVERSED list) has the size and, at all positions, the entries of the model's `gridKron` (first grid
+dimension fastest). -/
+theorem gen_grid_forward_eq_gridKron [Monoid α] [Zero α] (Ks : List (Sq α)) :
+    (gridForward false Ks).1 = (gridKron Ks).1 ∧ ∀ p q, (gridForward false Ks).get p q = (gridKron Ks).get p q := by
+  have e : gridForward false Ks = gridKronRowMajor Ks.reverse := by simp [gridForward, kroneckerOrder, kronList]
+  rw [e]
+  exact gridKronRowMajor_reverse Ks
+
+/-- hence the generated non-interpolation `GridKernel.forward`, read at the `create_data_from_grid` positions of two
+multi-indices, is `∏ₖ Kₖ[iₖ, jₖ]` — the dense meaning of the product kernel on `full_grid`. -/
+theorem gen_kron_order_grid_matches_full_grid [Monoid α] [Zero α] (Ks : List (Sq α)) (is js : List ℕ)
+    (hi : List.Forall₂ (fun i (K : Sq α) => i < K.1) is Ks) (hj : List.Forall₂ (fun j (K : Sq α) => j < K.1) js Ks) :
+    (gridForward false Ks).get (gridFlat (Ks.map (·.1)) is) (gridFlat (Ks.map (·.1)) js) = gridProd Ks is js := by
+  rw [(gen_grid_forward_eq_gridKron Ks).2]
+  exact grid_kron_order Ks is js hi hj
+
+/-- one grid dimension of a stationary kernel `k(x, y) = f(x − y)` on the equally spaced grid `g₀ + l·δ`, `l < n` -/
+structure GridDim (α : Type) where
+  n : ℕ
+  f : α → α
+  g0 : α
+  δ : α
+
+/-- the row `k(g₀, g_l)` that `GridKernel.forward` evaluates under `use_toeplitz` -/
+def GridDim.row [Field α] (d : GridDim α) : Σ n : ℕ, Fin n → α := ⟨d.n, fun l => d.f (d.g0 - (d.g0 + l.1 * d.δ))⟩
+
+/-- the dense one-dimensional kernel matrix `k(g_i, g_j)` -/
+def GridDim.dense [Field α] (d : GridDim α) : Sq α :=
+  ⟨d.n, DMat.ofMatrix (Matrix.of fun i j : Fin d.n => d.f ((d.g0 + i.1 * d.δ) - (d.g0 + j.1 * d.δ)))⟩
+
+/-- the generated Toeplitz branch of `GridKernel.forward`: for even `f` the factors built from the first rows are the dense
+per-dimension kernel matrices, so (with the two order theorems) the use_toeplitz result is the same matrix as the dense one,
+in both modes and in the `last_dim_is_batch` batch of factors. -/
+theorem gen_grid_toeplitz_eq_dense [Field α] (dims : List (GridDim α)) (heven : ∀ d ∈ dims, ∀ x, d.f (-x) = d.f x) :
+    gridToeplitzFactors (dims.map GridDim.row) = dims.map GridDim.dense ∧
+    (∀ mode, gridForward mode (gridToeplitzFactors (dims.map GridDim.row)) = gridForward mode (dims.map GridDim.dense)) ∧
+    gridForwardLastDimBatch (dims.map GridDim.row) (dims.map GridDim.dense) true
+      = gridForwardLastDimBatch (dims.map GridDim.row) (dims.map GridDim.dense) false := by
+  have e : gridToeplitzFactors (dims.map GridDim.row) = dims.map GridDim.dense := by
+    simp only [gridToeplitzFactors, List.map_map]
+    apply List.map_congr_left
+    intro d hd
+    simp only [Function.comp, GridDim.row, GridDim.dense]
+    congr 1
+    apply DMat.toMatrix_injective
+    ext i j
+    rw [toeplitz_entry d.f (heven d hd) d.g0 d.δ i j]
+    simp
+  refine ⟨e, fun mode => by rw [e], ?_⟩
+  simpa [gridForwardLastDimBatch, gridToeplitzFactors] using e
+
+/-- `GridKernel.forward(last_dim_is_batch=True)` returns the per-dimension factors themselves (additive structure: one
+one-dimensional kernel per input dimension, no Kronecker product). -/
+theorem gen_grid_last_dim_batch_eq_factors (rows : List (Σ n : ℕ, Fin n → α)) (covars : List (Sq α)) :
+    gridForwardLastDimBatch rows covars false = covars ∧
+    gridForwardLastDimBatch rows covars true = gridToeplitzFactors rows := ⟨rfl, rfl⟩
+
+/-- `GridInterpolationKernel._compute_grid`, generated from its transpose / unsqueeze / reshape sequence, hands
+`Interpolation.interpolate` the right coordinates: in ordinary mode point `a` is row `a` (coordinate `c` = column `c`); with
+`last_dim_is_batch` the `d·n` one-coordinate points are COLUMN-major, point `i·n + a` is entry `(a, i)`, and the result is
+viewed as `d × n × ·` — so batch element `i` is the interpolation of column `i` of the inputs. -/
+theorem gen_compute_grid_reads_column (n d a i c : ℕ) (ha : a < n) (hi : i < d) (hc : c < d) :
+    Gen.StructuredAlgebra.computeGridSource true n d (i * n + a) 0 = (a, i) ∧
+    Gen.StructuredAlgebra.computeGridSource false n d a c = (a, c) ∧
+    (∀ p, p < d * n → Gen.StructuredAlgebra.computeGridSource true n d p 0 = Structured.computeGridSource true n p 0) ∧
+    computeGridPointDim true n d = 1 ∧ computeGridPointDim false n d = d ∧
+    computeGridResultShape true n d = ([d], n) ∧ computeGridResultShape false n d = ([], n) := by
+  have hn : 0 < n := by omega
+  have hd : 0 < d := by omega
+  refine ⟨?_, ?_, ?_, rfl, rfl, rfl, rfl⟩
+  · simp only [Gen.StructuredAlgebra.computeGridSource, if_true, Nat.add_zero, Nat.div_one, Prod.mk.injEq]
+    constructor
+    · rw [Nat.mul_comm, Nat.mul_add_mod, Nat.mod_eq_of_lt ha]
+    · rw [Nat.add_comm, Nat.add_mul_div_right _ _ hn, Nat.div_eq_of_lt ha, Nat.zero_add, Nat.mod_eq_of_lt hi]
+  · simp only [Gen.StructuredAlgebra.computeGridSource, Bool.false_eq_true, if_false, Nat.div_one, Prod.mk.injEq]
+    constructor
+    · rw [Nat.add_comm, Nat.add_mul_div_right _ _ hd, Nat.div_eq_of_lt hc, Nat.zero_add, Nat.mod_eq_of_lt ha]
+    · rw [Nat.mul_add_mod_of_lt hc]
+  · intro p hp
+    simp only [Gen.StructuredAlgebra.computeGridSource, Structured.computeGridSource, if_true, Nat.add_zero, Nat.div_one,
+      Prod.mk.injEq, true_and]
+    exact Nat.mod_eq_of_lt (Nat.div_lt_of_lt_mul (by rw [Nat.mul_comm]; exact hp))
+
+/-- `InducingPointKernel.__deepcopy__` threads the `memo` dictionary through the copies of the base kernel, the inducing
+points and — the one the training objective depends on — the likelihood; with `deepcopy_memo_preserves_sharing` the copy of
+a model therefore keeps `covar_module.likelihood is model.likelihood`. -/
+theorem gen_deepcopy_threads_memo :
+    inducingDeepcopyArgs.lookup "likelihood" = some CopyMode.memo ∧
+    inducingDeepcopyArgs.lookup "base_kernel" = some CopyMode.memo ∧
+    inducingDeepcopyArgs.lookup "inducing_points" = some CopyMode.memo := by decide
+
+section
+variable [Field α] {g nf : ℕ}
+
+/-- the generated `get_fantasy_strategy` (WISKI) is the model's out-of-place transition: the new strategy receives
+`wiskiUpdate` of the caches and `self` keeps its own (second component = the inputs).  `√` enters only through
+`sqrt_inv_matmul`; its contract `√x · √x = x` is the hypothesis. -/
+theorem gen_wiski_fantasy_step_eq_model (P : Prim α) (P0 : DMat g g α) (resp0 : DMat g 1 α) (Wf : DMat nf g α)
+    (noisef : Fin nf → α) (yf muf : DMat nf 1 α) (hs : ∀ i, P.sqrt (noisef i) * P.sqrt (noisef i) = noisef i) :
+    Gen.StructuredAlgebra.wiskiFantasyStep P P0 resp0 Wf noisef yf muf
+      = (wiskiUpdate P0 resp0 Wf (fun i => (noisef i)⁻¹) (yf.sub muf), (P0, resp0)) ∧
+    (Gen.StructuredAlgebra.wiskiFantasyStep P P0 resp0 Wf noisef yf muf).2
+      = ((Structured.wiskiFantasyStep ⟨P0, resp0⟩ ⟨nf, Wf, fun i => (noisef i)⁻¹, yf.sub muf⟩).1.innerProd,
+         (Structured.wiskiFantasyStep ⟨P0, resp0⟩ ⟨nf, Wf, fun i => (noisef i)⁻¹, yf.sub muf⟩).1.response) := by
+  have hd : (Matrix.diagonal fun i => (P.sqrt (noisef i))⁻¹) * (Matrix.diagonal fun i => (P.sqrt (noisef i))⁻¹)
+      = Matrix.diagonal fun i => (noisef i)⁻¹ := by
+    rw [Matrix.diagonal_mul_diagonal]
+    congr 1; funext i
+    rw [← mul_inv, hs i]
+  have key : Gen.StructuredAlgebra.wiskiFantasyStep P P0 resp0 Wf noisef yf muf
+      = (wiskiUpdate P0 resp0 Wf (fun i => (noisef i)⁻¹) (yf.sub muf), (P0, resp0)) := by
+    simp only [Gen.StructuredAlgebra.wiskiFantasyStep, wiskiUpdate, wiskiInnerProd, wiskiResponse, Prod.mk.injEq, and_true]
+    apply DMat.toMatrix_injective
+    simp only [DMat.toMatrix_add, DMat.toMatrix_mul, DMat.toMatrix_transpose, DMat.toMatrix_diagonal,
+      Matrix.transpose_mul, Matrix.transpose_transpose, Matrix.diagonal_transpose]
+    congr 1
+    rw [← hd]
+    simp only [Matrix.mul_assoc]
+  exact ⟨key, by rw [key]; rfl⟩
+
+end
+
 section
 variable [Field α] {m : ℕ}
 
@@ -844,6 +1035,29 @@ example : ∑ k ∈ Finset.range numCoefficients, cubicKernel (scaledDist (1/2 :
 example : True := by
   have := rff_push_through (m11 1) (1 : ℚ) (by simp [m11, Matrix.vecMul, dotProduct]) (by simp [m11, Matrix.mul_apply])
   trivial
+
+-- gen_grid_toeplitz_eq_dense: an even profile exists (f = x², two dimensions of different size)
+example := gen_grid_toeplitz_eq_dense [⟨3, fun x : ℚ => x ^ 2, 0, 1/2⟩, ⟨4, fun x : ℚ => x ^ 2, 1, 1/4⟩]
+  (by intro d hd x; simp only [List.mem_cons, List.not_mem_nil, or_false] at hd; rcases hd with rfl | rfl <;> ring)
+
+-- gen_kron_order_grid_matches_full_grid: bounds satisfiable for a 2×3 grid
+example := gen_kron_order_grid_matches_full_grid [⟨2, DMat.ofMatrix !![1, 2; 3, 4]⟩, ⟨3, (DMat.one : DMat 3 3 ℚ)⟩] [1, 2] [0, 2]
+    (List.Forall₂.cons (by decide) (List.Forall₂.cons (by decide) List.Forall₂.nil))
+    (List.Forall₂.cons (by decide) (List.Forall₂.cons (by decide) List.Forall₂.nil))
+
+-- gen_compute_grid_reads_column: n = 5, d = 3, entry (a, i) = (4, 2)
+example := gen_compute_grid_reads_column 5 3 4 2 1 (by decide) (by decide) (by decide)
+
+-- gen_wiski_fantasy_step_eq_model: a square-root oracle exists on the noise values used (noise 1/4, √ = 1/2)
+example := gen_wiski_fantasy_step_eq_model (α := ℚ) ⟨fun A => A, fun A => A, fun A => A, fun A => A, fun _ => 1/2⟩ (m11 4) (m11 1) (m11 1)
+  (fun _ : Fin 1 => (1/4 : ℚ)) (m11 3) (m11 1) (fun _ => by norm_num)
+
+-- sgpr_objective_needs_shared_noise: tr(K − Q) = 2 ≠ 0, noises 1/3 and 1/2
+example := sgpr_objective_needs_shared_noise (fun _ : Fin 1 => (5 : ℚ)) (fun _ => 3) (1/3) (1/2) 0 (by norm_num) (by norm_num) (by norm_num)
+  (by norm_num)
+
+-- deepcopy_memo_preserves_sharing: object 7 was already copied to 2 and 3 ids are in use
+example := deepcopy_memo_preserves_sharing ⟨[(7, 2)], 3⟩ 7 2 rfl (by decide)
 
 end examples
 
